@@ -37,37 +37,50 @@ func fileExists(name string) (bool, error) {
 }
 
 func createSegment(name string, opt Options) (err error) {
-	f, err := os.OpenFile(name, os.O_RDWR|os.O_CREATE, opt.FileMode)
+	// prepare the file under a temporary name and rename it into place, so
+	// that a crash never leaves a partially initialised segment file behind
+	tmp := name + ".tmp"
+	f, err := os.OpenFile(tmp, os.O_RDWR|os.O_CREATE|os.O_TRUNC, opt.FileMode)
 	if err != nil {
 		return
 	}
 	defer func() {
-		if e := f.Close(); err == nil {
-			err = e
+		if f != nil {
+			if e := f.Close(); err == nil {
+				err = e
+			}
 		}
 		if err != nil {
-			if e := os.Remove(name); err == nil {
+			if e := os.Remove(tmp); err == nil {
 				err = e
 			}
 		}
 	}()
 	if verif {
-		verifPoint("create.created", name)
+		verifPoint("create.created", tmp)
 	}
 	size := int64(opt.SegmentSize)
 	if err = f.Truncate(size); err != nil {
 		return
 	}
 	if verif {
-		verifPoint("create.truncated", name)
+		verifPoint("create.truncated", tmp)
 	}
 	if _, err = f.WriteAt(make([]byte, 16), size-16); err != nil {
 		return
 	}
 	if verif {
-		verifPoint("create.written", name)
+		verifPoint("create.written", tmp)
 	}
-	err = f.Sync()
+	if err = f.Sync(); err != nil {
+		return
+	}
+	err = f.Close()
+	f = nil
+	if err != nil {
+		return
+	}
+	err = os.Rename(tmp, name)
 	return
 }
 
